@@ -300,4 +300,59 @@ theorem timeout_then_scrubs (s : St) (hp : Pend s) (hu : Uniq s) (ha : Acct s) (
     rw [List.take_of_length_le (by simp)]
     simp
 
+/-! ### reading a channel that has no sender left, to the end -/
+
+theorem recv_item_eq (s : St) (c : Nat) (ch : Chan) (dl : Option Nat) (it : Item) (hc : s.chans[c]? = some ch)
+    (hack : (s.ops[ch.opIdx]?.bind (·.res)) = some .ack) (hrx : ch.rxAlive = true) (hit : ch.items[ch.taken]? = some it) :
+    Conn.step s (.recv c dl) = some ({ s with chans := s.chans.set c { ch with taken := ch.taken + 1 } }, .item (some it)) := by
+  simp [Conn.step, hc, hrx, hit, hack]
+
+/-- `k` receives on a channel that holds at least `k` unread items: they are consumed, nothing else changes -/
+theorem recvs_closed (c : Nat) (dl : Option Nat) : ∀ (k : Nat) (s : St) (ch : Chan), s.chans[c]? = some ch →
+    (s.ops[ch.opIdx]?.bind (·.res)) = some .ack → ch.rxAlive = true → ch.taken + k ≤ ch.items.length →
+    (Conn.run s (List.replicate k (.recv c dl))).chans[c]? = some { ch with taken := ch.taken + k } ∧
+    (Conn.run s (List.replicate k (.recv c dl))).ops = s.ops ∧
+    chanOpen (Conn.run s (List.replicate k (.recv c dl))) c = chanOpen s c
+  | 0, s, ch, hc, _, _, _ => ⟨hc, rfl, rfl⟩
+  | k + 1, s, ch, hc, hack, hrx, hle => by
+    have hlt : ch.taken < ch.items.length := by omega
+    have hit : ch.items[ch.taken]? = some ch.items[ch.taken] := List.getElem?_eq_getElem hlt
+    have hstep := recv_item_eq s c ch dl _ hc hack hrx hit
+    have hnext : next s (.recv c dl) = ({ s with chans := s.chans.set c { ch with taken := ch.taken + 1 } } : St) := by
+      simp only [next, hstep]
+    have hclt : c < s.chans.length := (List.getElem?_eq_some_iff.mp hc).1
+    have hc1 : (s.chans.set c { ch with taken := ch.taken + 1 })[c]? = some { ch with taken := ch.taken + 1 } := by
+      simp [hclt]
+    obtain ⟨i1, i2, i3⟩ := recvs_closed c dl k ({ s with chans := s.chans.set c { ch with taken := ch.taken + 1 } } : St)
+      { ch with taken := ch.taken + 1 } hc1 hack hrx (by simp only; omega)
+    rw [List.replicate_succ, run_cons, hnext]
+    refine ⟨?_, i2, i3⟩
+    rw [i1]
+    simp only [Option.some.injEq]
+    have : ch.taken + 1 + k = ch.taken + (k + 1) := by omega
+    rw [this]
+
+/-- a stream whose channel has no sender left reads every queued item, in order, and then `closed` -/
+theorem closed_channel_drains (s : St) (c : Nat) (ch : Chan) (dl : Option Nat) (hc : s.chans[c]? = some ch)
+    (hack : (s.ops[ch.opIdx]?.bind (·.res)) = some .ack) (hrx : ch.rxAlive = true) (hclosed : chanOpen s c = false) :
+    (∀ (k : Nat) (it : Item), ch.items[ch.taken + k]? = some it →
+      ∃ s'', Conn.step (Conn.run s (List.replicate k (.recv c dl))) (.recv c dl) = some (s'', .item (some it))) ∧
+    Conn.step (Conn.run s (List.replicate (ch.items.length - ch.taken) (.recv c dl))) (.recv c dl) =
+      some (Conn.run s (List.replicate (ch.items.length - ch.taken) (.recv c dl)), .closed) := by
+  constructor
+  · intro k it hit
+    have hlt : ch.taken + k < ch.items.length := (List.getElem?_eq_some_iff.mp hit).1
+    obtain ⟨h1, h2, _⟩ := recvs_closed c dl k s ch hc hack hrx (by omega)
+    exact ⟨_, recv_item_eq _ c _ dl it h1 (by rw [h2]; exact hack) hrx hit⟩
+  · by_cases hle : ch.taken ≤ ch.items.length
+    · obtain ⟨h1, h2, h3⟩ := recvs_closed c dl (ch.items.length - ch.taken) s ch hc hack hrx (by omega)
+      have hn : ch.items[ch.taken + (ch.items.length - ch.taken)]? = none := by
+        rw [List.getElem?_eq_none_iff]; omega
+      simp [Conn.step, h1, h2, hack, hrx, hn, h3, hclosed]
+    · have h0 : ch.items.length - ch.taken = 0 := by omega
+      have hn : ch.items[ch.taken]? = none := by
+        rw [List.getElem?_eq_none_iff]; omega
+      rw [h0]
+      simp [Conn.run, Conn.step, hc, hack, hrx, hn, hclosed]
+
 end Ldap3V.Conn
